@@ -253,7 +253,7 @@ func (a *Actor) connect() bool {
 	a.rbuf = nil
 	e.onData = a.onData
 	e.onEOF = a.onEOF
-	s.logf("  a%02d connected c%03d", a.id, e.c.id)
+	s.logf("  a%02d connected %s", a.id, e.c.name)
 	return true
 }
 
@@ -359,7 +359,12 @@ func (a *Actor) onData(b []byte) {
 			op.Return = s.step
 			op.ReturnT = s.now()
 			op.Reply = v
-			s.logf("  a%02d< op%03d %s", a.id, op.Idx, clipStr(v.String(), 200))
+			if n := op.name(); n == "server" || n == "info" {
+				// contains process memory statistics: not part of the replayable history
+				s.logf("  a%02d< op%03d <%s reply, %d items>", a.id, op.Idx, n, len(v.A))
+			} else {
+				s.logf("  a%02d< op%03d %s", a.id, op.Idx, clipStr(v.String(), 200))
+			}
 			if op.Cmd.GoLive && !v.isErr() {
 				// keep it as the head marker; everything else is stream
 				a.outst = nil
